@@ -662,6 +662,11 @@ class HistRig(object):
             self.T.init_fftw_plan()
         elif op == 'temps':
             self.T.create_temporaries()
+        elif op == 'tempsinv':
+            if self.cached_inv is None:
+                self.cached_inv = self.T.inverse
+            self.conc = dict(self.conc, inv_mode='cached')      # the inverse object that got temporaries is used later
+            self.cached_inv.create_temporaries()
         elif op == 'scribble':
             # the caller re-uses / overwrites the objects it passed at construction
             self.owned_shift[:] = [not v for v in self.owned_shift]
@@ -677,7 +682,7 @@ def hist_applicable(conc, steps):
     ops = {s['act']['op'] for s in steps}
     if ops & {'plan', 'planinv'} and conc['impl'] != 'pyfftw':
         return False          # init_fftw_plan is documented to raise for the NumPy back-end
-    if 'temps' in ops and conc['kind'] != 'ft':
+    if ops & {'temps', 'tempsinv'} and conc['kind'] != 'ft':
         return False          # only the continuous transform has temporaries
     return True
 
@@ -720,7 +725,7 @@ def task_hist(task):
             ev['post'] = post
             cls = hist_class(conc)
             opimpl = conc['impl']
-            if act['op'] in ('inv', 'invip', 'planinv'):
+            if act['op'] in ('inv', 'invip', 'planinv', 'tempsinv'):
                 cls += 'Inverse'
                 try:
                     opimpl = rig.inverse().impl       # DiscreteFourierTransform.inverse does not propagate impl
@@ -735,11 +740,13 @@ def task_hist(task):
             ex['scribbled'] = 'yes' if 'scribble' in seen else 'no'
             ex['effort'] = act.get('e', '-')
             ex['planned'] = 'yes' if ('plan' in seen or 'planinv' in seen) else 'no'
+            ex['temps'] = 'yes' if ('temps' in seen or 'tempsinv' in seen) else 'no'
+            ex['sign'] = conc.get('sign', '-')
             ex['callno'] = 'later' if [o_ for o_ in seen if o_ in ('call', 'callip', 'inv', 'invip')] else 'first'
             res.append(obs(ev, where, ex, dict(conc, behaviour=[s['act'] for s in steps]),
                            ['hist', [s['act'] for s in steps][:len(seen) + 1], conc['kind'], conc['impl'],
                             conc['field'], conc['hcflag']],
-                           act['op'] not in ('plan', 'planinv', 'temps', 'scribble'), st.get('heap')))
+                           act['op'] not in ('plan', 'planinv', 'temps', 'tempsinv', 'scribble'), st.get('heap')))
             seen.append(act['op'])
             if ev.get('err') or post != st.get('heap', st.get('mirror', post)):
                 break           # the real objects left the specified behaviour: later steps are not comparable
@@ -961,6 +968,102 @@ def build_described(D, x0, strides):
                                         shift=shifts, impl=D['impl'])
 
 
+def deriv_histories(task, E, x0, strides, where, ex, conc, abstract):
+    """Histories on the DERIVED object D itself (DFTMachine actions, validated by Trace_FT!HistClauses): D is
+    derived anew per history, then receives init_fftw_plan() / create_temporaries() in both orders between calls
+    (out-of-place and in-place) on one argument.  D of forward type: T = D, argument "a", actions call / callip /
+    plan / temps; D of inverse type: D is the kept inverse object of the machine, argument the genuine spectrum
+    "Fa" held by y, actions inv / invip / planinv / tempsinv.  References ("a" / "Fa"): an integer signal and its
+    transform by a FRESH operator built through the constructor (never derived, no history) for the forward-type
+    record that the specification derives - so the inverse type is held to `recovers the input`."""
+    base, path = task['base'], task['path']
+    kind, shape = base['kind'], tuple(base['shape'])
+    dtype = DTYPES[(base['field'], base['prec'])]
+    fwd_rec = E if E['dir'] == 'fwd' else dict(E, dir='fwd', sign=-E['sign'], pow=0)
+    rnd = np.random.RandomState(5)
+    sig = rnd.randint(-3, 4, size=shape).astype(float)
+    if base['field'] == 'C':
+        sig = sig + 1j * rnd.randint(-3, 4, size=shape)
+    sig.flat[0] += 1
+    sig = sig.astype(dtype)
+    dom, Ff = build_described(fwd_rec, x0, strides)
+    spec = np.array(Ff(dom.element(sig.copy())).asarray(), copy=True)
+    isfwd = E['dir'] == 'fwd'
+    refs = {'a': sig, 'Fa': spec}
+    tol = 1e-8 if base['prec'] == 64 else 1e-3
+
+    def token(o):
+        if o is None:
+            return 'none'
+        arr = np.asarray(o.asarray())
+        if np.all(np.isnan(arr.real)):
+            return 'nan'
+        for t in ('a', 'Fa'):
+            r = refs[t]
+            if r.shape == arr.shape and np.allclose(arr, r, rtol=0, atol=tol * max(1.0, np.abs(r).max())):
+                return t
+        return 'other'
+    names = {'call': 'call' if isfwd else 'inv', 'callip': 'callip' if isfwd else 'invip',
+             'plan': 'plan' if isfwd else 'planinv', 'temps': 'temps' if isfwd else 'tempsinv'}
+    setup = [s_ for s_ in ('plan', 'temps') if (s_ == 'plan' and base['impl'] == 'pyfftw') or (s_ == 'temps' and kind == 'ft')]
+    progs = [['call'] + [a for s_ in order for a in (s_, 'callip', 'call')] + ['callip']
+             for order in ([setup, setup[::-1]] if len(setup) == 2 else [setup])]
+    if setup:
+        progs.append(setup + ['call', 'callip'])           # the derived object is planned before its first call
+    out = []
+    for prog in progs:
+        forget()
+        _, op = build_described(base, x0, strides)
+        for a in path:
+            op = op.inverse if a == 'i' else op.adjoint
+        objs = {'x1': op.domain.element(sig.copy()) if isfwd else dom.element(sig.copy()),
+                'x2': None, 'r': None, 'q': None,
+                'y': op.range.element() if isfwd else op.domain.element(spec.copy()),
+                'z': dom.element() if isfwd else op.range.element()}
+        for k_ in (('y', 'z') if isfwd else ('z',)):
+            objs[k_].asarray()[...] = np.nan
+        arg, tgt = ('x1', 'y') if isfwd else ('y', 'z')
+
+        def heap():
+            h = {k_: token(v) for k_, v in objs.items()}
+            h['x2'] = 'b'
+            return h
+        pre = heap()
+        seen = []
+        for step in prog:
+            act = {'op': names[step], 'x': arg if step in ('call', 'callip') else '-',
+                   'o': 'r' if step == 'call' else (tgt if step == 'callip' else '-'), 'e': '-'}
+            ev = {'k': 'hist', 'pre': pre, 'act': act}
+            try:
+                if step == 'call':
+                    objs['q'], objs['r'] = objs['r'], op(objs[arg])
+                elif step == 'callip':
+                    op(objs[arg], out=objs[tgt])
+                elif step == 'plan':
+                    op.init_fftw_plan()
+                else:
+                    op.create_temporaries()
+                post = heap()
+            except Exception as e:
+                ev['err'] = errname(e)
+                post = pre
+            ev['post'] = post
+            e2 = dict(ex, mode='ip' if step == 'callip' else 'oop', how=act['op'])
+            e2['after'] = '+'.join(seen) if seen else 'fresh'
+            e2['planned'] = 'yes' if 'plan' in seen else 'no'
+            e2['temps'] = 'yes' if 'temps' in seen else 'no'
+            e2['sign'] = '-' if E['sign'] < 0 else '+'
+            e2['type'] = E['dir']
+            out.append(obs(ev, where('history'), e2, conc, abstract + ['hist', seen + [step]],
+                           step in ('call', 'callip')))
+            seen.append(step)
+            if ev.get('err') or 'other' in post.values():
+                break
+            pre = post
+    return out
+
+
+
 DERIV_CLS = {'dft': 'DiscreteFourierTransform', 'ft': 'FourierTransform', 'wave': 'WaveletTransform'}
 
 
@@ -1076,20 +1179,23 @@ def task_deriv(task):
                 sc = max(max(abs(v) for v in lhs), max(abs(v) for v in rhs), 1e-300)
                 res.append(obs({'k': 'adj', 'a': [quant(v, sc, 20) for v in lhs], 'b': [quant(v, sc, 20) for v in rhs]},
                                where('wavelet-adjoint'), ex, conc, abstract, True))
-        # ---- repeated and in-place call on the same argument: same value, argument untouched
-        rnd = np.random.RandomState(5)
-        xa = rnd.randint(-3, 4, size=D.domain.shape).astype(D.domain.dtype)
-        x = D.domain.element(xa.copy())
-        y1 = np.array(D(x).asarray(), copy=True)
-        out = D.range.element()
-        out.asarray()[...] = np.nan
-        D(x, out=out)
-        tol = 1e-8 * max(1.0, np.abs(y1).max())
-        same = np.allclose(out.asarray(), y1, rtol=0, atol=tol)
-        kept = np.array_equal(x.asarray(), xa)
-        res.append(obs({'k': 'hist', 'pre': _h('a', r='Fa'), 'act': {'op': 'callip', 'x': 'x1', 'o': 'y'},
-                        'post': _h('a' if kept else 'other', y='Fa' if same else 'other', r='Fa')},
-                       where('history'), dict(ex, mode='ip'), conc, abstract, True))
+        if kind == 'wave':
+            # ---- repeated and in-place call on the same argument: same value, argument untouched
+            rnd = np.random.RandomState(5)
+            xa = rnd.randint(-3, 4, size=D.domain.shape).astype(D.domain.dtype)
+            x = D.domain.element(xa.copy())
+            y1 = np.array(D(x).asarray(), copy=True)
+            out = D.range.element()
+            out.asarray()[...] = np.nan
+            D(x, out=out)
+            tol = 1e-8 * max(1.0, np.abs(y1).max())
+            same = np.allclose(out.asarray(), y1, rtol=0, atol=tol)
+            kept = np.array_equal(x.asarray(), xa)
+            res.append(obs({'k': 'hist', 'pre': _h('a', r='Fa'), 'act': {'op': 'callip', 'x': 'x1', 'o': 'y'},
+                            'post': _h('a' if kept else 'other', y='Fa' if same else 'other', r='Fa')},
+                           where('history'), dict(ex, mode='ip'), conc, abstract, True))
+        else:
+            res += deriv_histories(task, E, x0, strides, where, ex, conc, abstract)
     except Exception as e:
         res.append(obs({'k': 'id', 'n': n, 'obs': [], 'err': errname(e)}, where('derived-behaviour'), ex, conc, abstract,
                        True))
